@@ -270,6 +270,7 @@ js::Value Coverage::toJson() const {
 
 void Harness::beginOp(const Op* o) {
 	op = o;
+	if (world && index >= 0) { world->curNode = index; world->curOpKind = o ? o->kind : -1; }
 	trace.clear(); guards.clear(); selfs.clear();
 	occ.assign(size_t(shape->n) * M_COUNT * 2, 0);
 	rndIndex = 0; round = -1; roundSeen.clear(); roundHadEntry = false; roundPending.clear();
